@@ -6,7 +6,7 @@ LEVEL = 'exploration'
 RULE = ('ALL non-empty predicates over 1-3 two-valued variables and over the '
         'grids 0..3, -2..1, -4..-1, 0..7, 0..3x0..1, -2..1x0..1, -4..-1x0..1 '
         '(thorough: all 65535 over 4 two-valued variables, over 0..3x-2..1 and over -4..-1x-2..1; '
-        'quick: one seed-selected block of 2048 of each) x care in {TRUE, type '
+        'quick: 2048 of each, spread with stride 32 from a seed-selected offset, plus EVERY predicate of these three whose covering problem has a non-empty cyclic core) x care in {TRUE, type '
         'hints, f|g, a care set missing a point of f}; cover.minimize read '
         'out to a set of boxes and compared with brute force: only maximal '
         'boxes inside f|~care, every point of f covered, cardinality = the '
@@ -38,9 +38,16 @@ def shards(tier, seed):
                 out.append(dict(grid=g, lo=lo, hi=min(lo + 255, 65535),
                                 backend='cudd'))
         else:
-            start = 1 + ((seed * 7919 + 3 * BIG.index(g)) % 31) * BLOCK
-            for lo in range(start, start + BLOCK, 128):
-                out.append(dict(grid=g, lo=lo, hi=min(lo + 127, 65535),
+            # 2048 masks spread over the whole range (stride 32), the
+            # offset chosen by the seed
+            off = (seed * 7 + 3 * BIG.index(g)) % 32
+            for lo in range(0, BLOCK, 128):
+                out.append(dict(grid=g, spread=[off, lo, lo + 128],
+                                backend='cudd', care='TRUE+hints'))
+            # and EVERY predicate whose covering problem (care = TRUE) has
+            # a non-empty cyclic core, i.e. needs branching
+            for lo in range(1, 65536, 2048):
+                out.append(dict(grid=g, cyclic=[lo, min(lo + 2047, 65535)],
                                 backend='cudd', care='TRUE+hints'))
     return out
 
@@ -57,7 +64,14 @@ def cases(shard):
         yield from EXTRA
         return
     g = shard['grid']
-    for f in range(shard['lo'], shard['hi'] + 1):
+    if 'spread' in shard:
+        off, lo, hi = shard['spread']
+        fs = [1 + (off + 32 * i) % 65535 for i in range(lo, hi)]
+    elif 'cyclic' in shard:
+        fs = _cyclic(g, *shard['cyclic'])
+    else:
+        fs = range(shard['lo'], shard['hi'] + 1)
+    for f in fs:
         for cname, cm in cv.care_menu(g, f):
             if shard.get('care') and cname not in ('TRUE', 'hints'):
                 continue
@@ -66,6 +80,23 @@ def cases(shard):
                 continue
             yield dict(grid=g, f=f, care=cm, care_name=cname,
                        backend=shard['backend'])
+
+
+def _cyclic(grid, lo, hi):
+    import itertools
+    from vlib import boxes as bx
+    from vlib import readout as ro
+    rngs = [ro.rep_range(h) for _, h in cv.GRIDS[grid]]
+    sp = list(itertools.product(*rngs))
+    allb = bx.all_boxes(rngs)
+    bpts = {b: frozenset(bx.box_points(b)) for b in allb}
+    for f in range(lo, hi + 1):
+        F = frozenset(p for i, p in enumerate(sp) if f >> i & 1)
+        impl = [b for b in allb if bpts[b] <= F]
+        pr = [b for b in impl
+              if not any(b != c and bpts[b] < bpts[c] for c in impl)]
+        if bx.cyclic_core_size(F, pr) > 0:
+            yield f
 
 
 def run_case(case, acc):
